@@ -111,8 +111,29 @@ func (e *Engine) invoke(f *frame, x *ssa.Call, recv Val, m *types.Func, args []V
 		f.st = base.clone()
 		rv := e.fromInterface(recv, c.t)
 		fn := c.fn
-		// wrapper methods (promoted / value-receiver through pointer) are synthetic: call through
-		r := e.callFunction(f, fn, append([]Val{rv}, args...), nil, nil, x.Pos())
+		// an implementation outside the supported subset is acceptable only if it cannot be the
+		// dynamic type here: that becomes an obligation instead of making the caller unverifiable
+		var r Val
+		okCall := func() (ok bool) {
+			nObl, nAss := len(e.Obls), len(e.Assumptions)
+			defer func() {
+				if rec := recover(); rec != nil {
+					if _, isU := rec.(unsupported); isU {
+						e.Obls, e.Assumptions = e.Obls[:nObl], e.Assumptions[:nAss]
+						ok = false
+						return
+					}
+					panic(rec)
+				}
+			}()
+			r = e.callFunction(f, fn, append([]Val{rv}, args...), nil, nil, x.Pos())
+			return true
+		}()
+		if !okCall {
+			e.pc = savedPC
+			e.oblige("assert", "dynamic type is not "+shortType(c.t)+" (implementation outside the verified subset)", X.Not(cond), x.Pos())
+			continue
+		}
 		conds = append([]*smt.Term{cond}, conds...)
 		sts = append([]*State{f.st}, sts...)
 		if !have {
@@ -160,6 +181,25 @@ func (e *Engine) stdModel(f *frame, fn *ssa.Function, args []Val, pos token.Pos)
 		e.UsedStd["assumed: "+q+" returns a fresh non-nil error"] = true
 		ref := e.newRef(f.st)
 		return Val{T: fn.Signature.Results().At(0).Type(), C: []*smt.Term{X.Const(uint64(e.tagNamed("*errors.errorString")), 32), X.ZeroExt(32, ref)}}, true
+	case "(*bytes.Buffer).Write":
+		// assumed model: the unread contents grow by exactly p (b.buf = append(b.buf, p...)); n = len(p), err = nil
+		e.UsedStd["assumed: (*bytes.Buffer).Write appends exactly its argument to the buffer contents and returns (len(p), nil)"] = true
+		b, p := args[0], args[1]
+		e.nilCheck(b, pos, "bytes.Buffer")
+		bt := pointee(b.T)
+		st := bt.Underlying().(*types.Struct)
+		var ft types.Type
+		for i := 0; i < st.NumFields(); i++ {
+			if st.Field(i).Name() == "buf" {
+				ft = st.Field(i).Type()
+			}
+		}
+		fp := Val{T: types.NewPointer(ft), C: b.C, Root: RootObj, RootT: typeKey(bt), Path: ".buf"}
+		old := e.load(f.st, fp)
+		nw := e.appendCore(f, old, p, pos)
+		e.store(f.st, fp, nw)
+		errT := fn.Signature.Results().At(1).Type()
+		return Val{T: fn.Signature.Results(), Tup: []Val{e.intVal(types.Typ[types.Int], p.ln()), e.zeroVal(errT)}}, true
 	case "time.Now":
 		e.UsedStd["assumed: time.Now returns some time value and touches no library memory"] = true
 		return e.freshVal("now", resultType(fn.Signature)), true
